@@ -150,6 +150,15 @@ inline void GenZoo(Source& s, Lane l, Zoo& z, const ZooGenCfg& g)
 	n = ZLen(s, l, g);
 	for (uint32_t i = 0; i < n; ++i) { Inner in; in.a = ZInt(s, l); in.b = ZStr(s, l, g); z.vobj.push_back(in); }
 	n = ZLen(s, l, g); for (uint32_t i = 0; i < n; ++i) z.bin.push_back(static_cast<unsigned char>(s.draw(l, 256)));
+	if (g.archive == A_XML)
+	{
+		z.attrI = ZInt(s, l);
+		z.attrU64 = GenUnsigned(s, l, 64);
+		z.attrI64 = GenSigned(s, l, 64);
+		z.attrB = s.chance(l, 1, 2);
+		z.attrF = static_cast<double>(s.range(l, -100000, 100000)) / 8.0;
+		z.attrS = ZStr(s, l, g);
+	}
 	auto genInner = [&](Inner& in) { in.a = ZInt(s, l); in.b = ZStr(s, l, g); };
 	n = ZLen(s, l, g); for (uint32_t i = 0; i < n; ++i) { if (s.chance(l, 1, 4)) z.voObj.emplace_back(std::nullopt); else { Inner in; genInner(in); z.voObj.emplace_back(in); } }
 	n = ZLen(s, l, g); for (uint32_t i = 0; i < n; ++i) { if (s.chance(l, 1, 4)) z.vuObj.emplace_back(nullptr); else { auto p = std::make_unique<Inner>(); genInner(*p); z.vuObj.push_back(std::move(p)); } }
@@ -185,6 +194,7 @@ inline void GenZoo(Source& s, Lane l, Zoo& z, const ZooGenCfg& g)
 		for (auto& x : z.uset) { z.usetAlt.emplace_back(x); if (s.chance(l, 1, 3)) z.usetAlt.emplace_back(std::nullopt); }
 		if (z.usetAlt.empty() || s.chance(l, 1, 3)) z.usetAlt.insert(z.usetAlt.begin(), std::nullopt);
 		for (auto x : z.mset) { z.msetAlt.emplace_back(x); if (s.chance(l, 1, 3)) z.msetAlt.emplace_back(std::nullopt); }
+		for (size_t i = 0; i < z.val.size(); ++i) { if (s.chance(l, 1, 3)) z.valAlt.emplace_back(std::nullopt); else z.valAlt.emplace_back(z.val[i]); }
 		// objects inside a sequence container whose document lacks a member (elements are not fields: a reused element must not keep it)
 		for (auto& in : z.vobj) in.omitB = s.chance(l, 1, 2);
 		for (auto& o : z.voObj) if (o) o->omitB = s.chance(l, 1, 2);
@@ -298,6 +308,7 @@ inline std::map<std::string, std::string> ZooFields(const Zoo& z, bool csv)
 	{ std::string r = "["; for (auto& o : z.vo) r += (o ? std::to_string(*o) : std::string("null")) + ","; f["vo"] = r + "]"; }
 	{ std::string r = "["; for (auto& o : z.vobj) r += std::to_string(o.a) + "/" + HexStr(o.b) + ","; f["vobj"] = r + "]"; }
 	{ std::string r; HexAppend(r, z.bin.data(), z.bin.size()); f["bin"] = r; }
+	{ std::string r = std::to_string(z.attrI) + "/" + std::to_string(z.attrU64) + "/" + std::to_string(z.attrI64) + "/" + (z.attrB ? "1" : "0") + "/"; HexAppend(r, &z.attrF, 8); f["attrs"] = r + "/" + HexStr(z.attrS); }
 	f["optDur"] = z.optDur ? std::to_string(z.optDur->count()) : "null";
 	f["uDur"] = z.uDur ? std::to_string(z.uDur->count()) : "null";
 	auto innerRepr = [](const Inner* in) { return in ? std::to_string(in->a) + "/" + HexStr(in->b) : std::string("null"); };
